@@ -249,7 +249,7 @@ def gen_cases(rng, tier):
     if route in ("main", "api") and i % 5 == 4:
       # feature interaction: operations that address [Variables] itself, and an item written as ${VAR} that is
       # overridden with exactly the text it currently expands to ("frozen") while VAR is changed or removed
-      case["freeze"] = {"tseed": rng.randrange(1 << 30), "force_last_key": (i // 5) % 2 == 0}
+      case["freeze"] = {"tseed": rng.randrange(1 << 30), "force_last_key": (i // 5) % 2 == 0, "clear_variables": (i // 5) % 4 == 1}
       case["listing"] = False
       case.pop("combined", None)
     cases.append(case)
@@ -460,6 +460,13 @@ def run_freeze(case, ctx, items):
   if rng.random() < 0.3:
     ops.append({"op": "add", "section": "Variables", "key": "fresh_%d" % rng.randint(0, 99), "value": "2.5"})
     ctx.cls("variable_added")
+  if case["freeze"].get("clear_variables"):
+    # every item of [Variables] removed (the last one included): the section is then empty / gone, as in the file
+    # edited by hand; items that still use a variable make both a configuration error
+    ops = [o for o in ops if o["section"] != "Variables"]
+    for n_, v_ in allvars:
+      ops.append({"op": "remove", "section": "Variables", "key": n_})
+    ctx.cls("every_variable_removed")
   # every key of a small section removed in a file that HAS a [Variables] section (the then-empty section must be
   # treated as in a file without one)
   small = [(s_, its) for s_, its in templ if 1 <= len(its) <= 2 and not s_.startswith("Table-Form") and s_ != "Tabulation"]
